@@ -131,7 +131,7 @@ theorem decF_sound {R : Registry} {dn : String → Dec} (hn : NameSound R dn) :
       · simp only [Option.some.injEq, Prod.mk.injEq] at e
         obtain ⟨rfl, rfl⟩ := e
         obtain ⟨h1, h2⟩ := decLenBytes_some hs
-        simp [enc, wt, h1, h2, *]
+        simp [enc, wt, *]
       · cases e
     · cases e
   | .bytes => by
@@ -153,7 +153,7 @@ theorem decF_sound {R : Registry} {dn : String → Dec} (hn : NameSound R dn) :
       · split at e
         · obtain ⟨w, hw, rfl⟩ := mapFst_some e
           obtain ⟨h1, h2⟩ := decF_sound hn f _ _ _ hw
-          simp [enc, wt, h1, h2, *]
+          simp [enc, wt, *]
         · cases e
   | .seq f => by
     intro bs v rest e
